@@ -18,7 +18,7 @@ from ..engine import pattern as P
 from ..engine.facts import dotted, const, src, walk_func, str_value
 from ..engine.facts import ancestors as facts_ancestors
 from . import skeletons as sk
-from .common import pn, access_paths
+from .common import pn, access_paths, assigned_from
 from .c13 import check_skeleton, loop_construct_traces, _T
 from . import c01  # text-stops-cover is registered for C03 there
 
@@ -251,6 +251,16 @@ def enable_loop_guard(ctx):
     init = db.func("codegen._GenerateRenderMethod.__init__")
     a = [n for n in walk_func(init) if isinstance(n, ast.Assign) and dotted(n.targets[0]) == "self.compiler.enable_loop"]
     ctx.check(bool(a) and isinstance(a[0].value, ast.BoolOp) and isinstance(a[0].value.op, ast.Or) and "enable_loop" in src(a[0].value.values[1]), "page-override", db.where(a[0]) if a else db.where(init), "<%page enable_loop> does not re-enable the loop context", "enable_loop = template setting or <%page enable_loop>")
+    # the override holds for the whole module (body, top-level defs, blocks): the compiler's flag is only ever raised
+    cgm = db.mod("codegen")
+    stores = [n for n in ast.walk(cgm.tree) if isinstance(n, ast.Assign) and any(isinstance(t_, ast.Attribute) and t_.attr == "enable_loop" for t_ in n.targets)]
+    for s_ in stores:
+        q_ = getattr(getattr(s_, "_func", None), "_qual", "<module>")
+        tgt = src(s_.targets[0])
+        v_ = s_.value
+        initial = isinstance(v_, ast.Name) and q_.endswith(".__init__") and tgt.startswith("self.") and v_.id in [a_.arg for a_ in s_._func.args.args]
+        raising = isinstance(v_, ast.BoolOp) and isinstance(v_.op, ast.Or) and src(v_.values[0]) == tgt
+        ctx.check(initial or raising, "flag-monotone:%s" % q_.split(".", 1)[1], db.where(s_), "`%s`: the compiler's enable_loop flag is lowered or replaced after <%%page enable_loop=\"True\"> raised it; the callables generated afterwards (top-level defs, named blocks) treat `loop` as an ordinary name" % src(s_), "initial value or `flag = flag or ...`")
     emitted = [n for n in walk_func(db.func("codegen._GenerateRenderMethod.write_toplevel")) if isinstance(n, ast.BinOp) and isinstance(n.left, ast.Constant) and str(n.left.value).startswith("_enable_loop")]
     ctx.check(bool(emitted) and src(emitted[0].right) == "self.compiler.enable_loop", "module-attr", "mako/codegen.py (write_toplevel)", "_enable_loop module attribute not emitted from compiler.enable_loop", "_enable_loop recorded in the module")
 
@@ -413,3 +423,54 @@ def printer_model(ctx):
         ctx.ok("writeline", db.where(wl), "dedent before / indent after a line ending in ':' as modelled")
     else:
         ctx.undecided("writeline", db.where(wl), "writeline's indent/dedent conditions are not in the modelled shape")
+
+
+@rule("C03.printer-indents-first-line-only", min_instances=3, props=["C02", "C19"])
+def printer_indent_prefix(ctx):
+    """the printer changes an emitted line only in front of its first physical line: indentation is prepended (or substituted for the block margin at the start of the string), never inserted after embedded newlines - a ${...} expression or statement that spans lines (multi-line string literals) keeps its text"""
+    db = ctx.db
+    fn = db.func("pygen.PythonPrinter._indent_line")
+    line = pn(fn, 1)
+    rets = [r for r in walk_func(fn) if isinstance(r, ast.Return)]
+    ctx.require(rets, "_indent_line has no return")
+    n = 0
+    for r in rets:
+        n += 1
+        v = r.value
+        okp = P.matches(v, "self.indentstring * self.indent + %s" % line)
+        env = {}
+        oks = P.matches(v, "re.sub($rx, self.indentstring * self.indent, %s)" % line, env)
+        if oks:
+            rxs = src(env["rx"][1])
+            oks = rxs.replace('"', "'").startswith(("'^%s' %", "r'^%s' %")) or rxs.replace('"', "'") in ("'^' + %s" % pn(fn, 2),)
+        ctx.check(okp or oks, "return:%d" % n, db.where(r), "_indent_line returns `%s`: text after the start of the line (e.g. the continuation lines of a multi-line string inside an expression) is altered" % src(v), "indentation put in front of the line only")
+    # the other writers of the stream add only a newline
+    ws = [c for q, f in db.functions_in("pygen") for c in walk_func(f) if isinstance(c, ast.Call) and dotted(c.func) == "self.stream.write"]
+    ctx.require(len(ws) >= 3, "stream writes in pygen: %d" % len(ws))
+    for c in ws:
+        a = c.args[0]
+        ok = (isinstance(a, ast.BinOp) and isinstance(a.op, ast.Add) and const(a.right) == "\n" and (isinstance(a.left, ast.Name) or P.matches(a.left, "self._indent_line(...)"))) or const(a) == "\n" or P.matches(a, "'\\n' * $n")
+        ctx.check(ok, "write:%s" % getattr(getattr(c, "_func", None), "_qual", "?").split(".")[-1], db.where(c), "the printer writes `%s`: something else than the (indented) line and a newline" % src(a), "line + newline")
+
+
+@rule("C03.body-children", min_instances=4)
+def body_children(ctx):
+    """the generator inserts `pass` for a control line whose own body is empty or comment-only; the body it looks at is the list the lexer fills: every node goes to the enclosing primary line's list and to the list of the most recent ternary line of that block"""
+    db = ctx.db
+    an = db.func("lexer.Lexer.append_node")
+    nodevars = {s.targets[0].id for s in walk_func(an) if isinstance(s, ast.Assign) and isinstance(s.targets[0], ast.Name) and isinstance(s.value, ast.Call) and dotted(s.value.func) == pn(an, 1)}
+    ctx.require(len(nodevars) == 1, "append_node: the created node is not a single local")
+    nv = sorted(nodevars)[0]
+    apps = [c for c in walk_func(an) if isinstance(c, ast.Call) and isinstance(c.func, ast.Attribute) and c.func.attr == "append" and isinstance(c.func.value, ast.Attribute) and c.func.value.attr == "nodes" and len(c.args) == 1 and src(c.args[0]) == nv]
+    tern = [c for c in apps if "ternary_stack" in src(c.func.value.value)]
+    ctx.check(len(tern) == 1 and src(tern[0].func.value.value) == "self.ternary_stack[-1][-1]", "ternary-body", db.where(tern[0]) if tern else db.where(an),
+              "a node following a ternary control line is recorded under `%s`, not under the most recent ternary line of the innermost block: the generator's empty-body test (auto `pass`) looks at the wrong list and emits `elif ...:` directly followed by `else:`" % (src(tern[0].func.value.value) if tern else None), "children of a ternary = nodes up to the next ternary of the same block")
+    push = [c for c in walk_func(an) if isinstance(c, ast.Call) and src(c.func) == "self.ternary_stack[-1].append" and src(c.args[0]) == nv]
+    ctx.check(len(push) == 1, "ternary-push", db.where(an), "a ternary control line is not pushed as the latest ternary of its block", "ternary lines appended to the block's list")
+    newblk = [c for c in walk_func(an) if isinstance(c, ast.Call) and src(c.func) == "self.ternary_stack.append" and isinstance(c.args[0], ast.List) and not c.args[0].elts]
+    popblk = [c for c in walk_func(an) if isinstance(c, ast.Call) and src(c.func) == "self.ternary_stack.pop" and not c.args]
+    ctx.check(len(newblk) == 1 and len(popblk) == 1, "ternary-blocks", db.where(an), "the per-block list of ternaries is not opened with the primary line and dropped with its end line", "one list of ternaries per open block")
+    vc = db.func("codegen._GenerateRenderMethod.visitControlLine")
+    ch = assigned_from(vc, "%s.get_children()" % pn(vc, 1))
+    gc = db.func("parsetree.ControlLine.get_children")
+    ctx.check(bool(ch) and P.has(gc, "return self.nodes"), "generator-reads", db.where(vc), "the empty-body test does not read the control line's own node list", "get_children() is the list the lexer filled")
